@@ -355,6 +355,10 @@ def run(res, tier, seed, shard, nshards):
                 rng = rng_for("C06", tier, seed, shard, ci, h)
                 prof = Profile()
                 prof.query_probes = False
+                if h % 5 == 0:  # long random sequences
+                    prof.min_ops = prof.max_ops = 150 if tier == "quick" else 400
+                    prof.max_rows = 30
+                    res.count("long_random_histories")
                 HistoryRunner(res, cfg, scratch, rng, prof, judge).run()
     if shard == 0:
         res.counters["depth_memory"] = DEPTH_MEM[tier]
@@ -367,6 +371,7 @@ def run(res, tier, seed, shard, nshards):
     res.require("ops_raised")
     res.require("csv_sequences")
     res.require("random_history_ops")
+    res.require("long_random_histories")
     res.assumptions += [
         "the answer battery is finite: equivalence is decided on its answers (all getters, len/empty/latest_time and ~150 "
         "searches per state), not on private arrays; structural drift of private arrays is only logged as a diagnostic",
